@@ -28,7 +28,8 @@ LEVEL_NOTE = ("Theorems are about the Gallina model Exec/SubscribeModel.v of exe
               "model is tied to /repo by running real subscriptions on a private asyncio loop on every run and "
               "comparing per-event responses with the same selection executed as a plain query on a fresh executor. "
               "Concurrent __anext__ calls on one stream are outside the model.")
-RULE = ("events whose execution aborts with a non-field exception before / after field errors were registered (also "
+RULE = ("source streams whose only contract is async iteration (classes defining __len__, __bool__, __eq__, __hash__ = None, "
+        "__getattr__ with unhelpful answers; prefilled and late-filled; 0-8 events); events whose execution aborts with a non-field exception before / after field errors were registered (also "
         "inside list items) with a consumer that keeps reading; event payloads from a family (dicts carrying their failures, None, 0, '', False, True, [], {}, unrelated dicts, "
         "plain objects) at every position incl. several payload-less events in a row, under root fields that read the "
         "event by key, echo it, or ignore it; event lists of length 0-8 whose per-event failures (non-null violations, resolver errors with/without "
@@ -61,14 +62,22 @@ def corpus():
     out.append(_stream(["lo_null_then_crash", "ok", "lo_item"], G.SEL_ABORT_IN_LIST, "agen", "async", [0, 0, 0], 0))
     out.append(_stream(["crash_f", "v_raise"], G.SEL_ABORT_FIRST, "sync", "sync", [0, 0], 0))
     out.append(_stream(["l_crash"], G.SEL_ABORT_IN_LIST, "async", "sync", [0], 0))
+    # source streams that are falsy / unhashable / equal to everything when the resolver returns them (seeded C17-d)
+    out.append(_stream([], 1, "chan_sync", "sync", [], 0, ["len"], "pre"))
+    out.append(_stream(["ok", "v_raise"], 1, "chan_sync", "sync", [0, 0], 0, ["len", "bool_empty"], "late"))
+    out.append(_stream(["ok"], 2, "chan_async", "async", [1], 1, ["bool_false", "eq_true", "nohash", "getattr_none"], "pre"))
+    out.append(_stream(["n_null", "ok", "raw_none"], 1, "chan_async", "sync", [0, 1, 0], 0, ["len"], "late"))
     for r in G.REFUSALS:
         out.append(_refusal(r))
     return out
 
 
-def _stream(variants, sel, source, flavour, delays, consumer_delay):
-    return {"kind": "stream", "variants": variants, "selection": sel, "source": source,
-            "flavour": flavour, "delays": delays, "consumer_delay": consumer_delay}
+def _stream(variants, sel, source, flavour, delays, consumer_delay, traits=None, fill=None):
+    c = {"kind": "stream", "variants": variants, "selection": sel, "source": source,
+         "flavour": flavour, "delays": delays, "consumer_delay": consumer_delay}
+    if traits is not None:
+        c["traits"], c["fill"] = traits, fill
+    return c
 
 
 def _refusal(r):
@@ -107,6 +116,22 @@ def generate(rng, tier):
         variants = [rng.choice(G.RAW_NAMES + G.FALSY_RAW + ["ok", "v_raise"]) for _ in range(n)]
         cases.append(_stream(variants, rng.choice(sels + [0, 3, 4]), sources[i % 3], "async" if i % 2 else "sync",
                              [rng.choice([0, 0, 1, 2]) for _ in range(n)], rng.choice([0, 1])))
+    # source-stream classes: trait combinations x prefilled / late-filled x every length incl. 0
+    trait_sets = [[], ["len"], ["bool_empty"], ["bool_false"], ["bool_true", "len"], ["eq_true"], ["eq_raises"],
+                  ["nohash"], ["getattr_none"], ["getattr_raises"], ["len", "bool_empty", "eq_true", "getattr_none"],
+                  ["len", "nohash", "eq_raises", "getattr_raises"], ["bool_false", "nohash", "getattr_none"]]
+    j = 0
+    for traits in trait_sets:
+        for fill in ("pre", "late"):
+            for n in range(0, (5 if quick else 9)):
+                if quick and n in (3,) and j % 2:
+                    j += 1
+                    continue
+                variants = [["ok", "v_raise", "n_null", "raw_none", "many", "ok"][(j + i) % 6] for i in range(n)]
+                cases.append(_stream(variants, [1, 2, G.SEL_ECHO, 3][j % 4], "chan_sync" if j % 2 else "chan_async",
+                                     "async" if (j // 2) % 2 else "sync", [(j + i) % 3 % 2 for i in range(n)], j % 2,
+                                     traits, fill))
+                j += 1
     # aborting events: every aborting behaviour first / in the middle / last / twice in a row, under the
     # three orders (errors before the abort, abort first, inside list items), then events that complete
     ab_sels = [G.SEL_ERR_THEN_ABORT, G.SEL_ABORT_FIRST, G.SEL_ABORT_IN_LIST, 2]
@@ -174,7 +199,101 @@ class _Source(object):
         return self.events[k]
 
 
-def _make_sub_resolver(kind, events, delays, log, counter):
+# ---- source streams whose only contract is the async-iteration protocol: every other protocol the
+# library might touch (truthiness, len, equality, hashing, attribute probing) answers unhelpfully
+TRAITS = ["len", "bool_empty", "bool_false", "bool_true", "eq_true", "eq_raises", "nohash", "getattr_none",
+          "getattr_raises"]
+
+
+class _Channel(object):
+    """a buffered channel: events are pushed (at construction = prefilled, or after subscribe() returned
+    = late-filled) and delivered in order by __anext__, which waits while the buffer is empty and the
+    channel is still open"""
+
+    def __init__(self, delays, log, counter):
+        self._buffer, self._closed, self._next = [], False, 0
+        self._delays, self._log, self._counter = delays, log, counter
+
+    def push(self, event):
+        self._buffer.append(event)
+
+    def close(self):
+        self._closed = True
+
+    def __aiter__(self):
+        return self
+
+    async def __anext__(self):
+        self._counter["requests"] += 1
+        while not self._buffer and not self._closed:
+            await asyncio.sleep(0)
+        if not self._buffer:
+            self._log.append(["end"])
+            raise StopAsyncIteration()
+        k = self._next
+        for _ in range(self._delays[k] if k < len(self._delays) else 0):
+            await asyncio.sleep(0)
+        self._next += 1
+        self._counter["consumed"] += 1
+        self._log.append(["pulled", k])
+        return self._buffer.pop(0)
+
+
+def _raise_type_error(self, *a, **k):
+    raise TypeError("this stream only supports async iteration")
+
+
+def make_channel_class(traits):
+    ns = {}
+    if "len" in traits:
+        ns["__len__"] = lambda self: len(self._buffer)
+    if "bool_empty" in traits:
+        ns["__bool__"] = lambda self: bool(self._buffer)
+    if "bool_false" in traits:
+        ns["__bool__"] = lambda self: False
+    if "bool_true" in traits:
+        ns["__bool__"] = lambda self: True
+    if "eq_true" in traits:
+        ns["__eq__"] = lambda self, other: True
+        ns["__ne__"] = lambda self, other: True
+        ns["__hash__"] = lambda self: 0
+    if "eq_raises" in traits:
+        ns["__eq__"] = _raise_type_error
+        ns["__hash__"] = lambda self: 0
+    if "nohash" in traits:
+        ns["__hash__"] = None
+    if "getattr_none" in traits:
+        ns["__getattr__"] = lambda self, name: None           # hasattr(stream, anything) is True
+    if "getattr_raises" in traits:
+        def _ga(self, name):
+            raise AttributeError("no attribute %r: this stream only supports async iteration" % name)
+        ns["__getattr__"] = _ga
+    return type("Channel_" + "_".join(traits or ["plain"]), (_Channel,), ns)
+
+
+def _make_sub_resolver(kind, events, delays, log, counter, case=None, holder=None):
+    if kind in ("chan_sync", "chan_async"):
+        cls = make_channel_class(case.get("traits", []))
+
+        def build():
+            ch = cls(delays, log, counter)
+            if case.get("fill", "pre") == "pre":
+                for ev in events:
+                    ch.push(ev)
+                ch.close()
+            holder.append(ch)
+            return ch
+        if kind == "chan_sync":
+            def chan_sync(root, ctx, info, **args):
+                counter["called"] += 1
+                return build()
+            return chan_sync
+
+        async def chan_async(root, ctx, info, **args):
+            counter["called"] += 1
+            await asyncio.sleep(0)
+            return build()
+        return chan_async
     if kind == "agen":
         async def agen(root, ctx, info, **args):
             counter["called"] += 1
@@ -214,10 +333,27 @@ async def _run_stream(case):
     schema = G.get_schema(case["flavour"])
     events = [G.make_event(v, k) for k, v in enumerate(case["variants"])]
     log, counter = [], {"called": 0, "requests": 0, "consumed": 0}
-    G.set_subscription_resolvers(schema, _make_sub_resolver(case["source"], events, case["delays"], log, counter))
+    holder = []
+    G.set_subscription_resolvers(schema, _make_sub_resolver(case["source"], events, case["delays"], log, counter,
+                                                            case, holder))
     text = G.SELECTIONS[case["selection"]]
     doc = parse(text)
-    stream = await subscribe(schema, doc, runtime=AsyncIORuntime())
+    try:
+        stream = await subscribe(schema, doc, runtime=AsyncIORuntime())
+    except Exception as e:  # noqa  a valid subscription was refused / setting up the stream failed
+        return {"observed": [], "observed_late": [], "fresh": [], "trace": log, "ended": False,
+                "consumed": counter["consumed"], "called": counter["called"], "requests": counter["requests"],
+                "subscribe_raised": "%s: %s" % (type(e).__name__, str(e)[:200])}
+    feeder = None
+    if holder and case.get("fill") == "late":
+        # events only arrive after subscribe() has returned
+        async def feed(ch):
+            for ev in events:
+                await asyncio.sleep(0)
+                ch.push(ev)
+            await asyncio.sleep(0)
+            ch.close()
+        feeder = asyncio.ensure_future(feed(holder[0]))
     observed = []
     results = []
     ended = False
@@ -242,6 +378,8 @@ async def _run_stream(case):
             await asyncio.sleep(0)
         if len(observed) > len(events) + 2:
             break
+    if feeder is not None:
+        await feeder
     # the oracle: the same selection as a plain query, event k as root value, fresh executor each time
     odoc = parse(_oracle_text(text))
     fresh = []
@@ -368,6 +506,8 @@ def canonical(case):
 def classify(case, obs):
     if case["kind"] == "refusal":
         return "refused with the documented exception before any event is consumed (%s)" % case["label"], None
+    if obs.get("subscribe_raised"):
+        return "a valid subscription yields a response stream (subscribe raised %s)" % obs["subscribe_raised"][:60], None
     if len(obs["observed"]) != len(case["variants"]) or not obs["ended"]:
         return "one result per source event, stream ends with the source", None
     if obs["observed"] != obs["fresh"]:
@@ -379,6 +519,9 @@ def direct_checks(case, obs):
     out = []
     if case["kind"] == "refusal" and obs["cls"].startswith("other:"):
         out.append(("refusal raised an undocumented exception class %s" % obs["cls"], None))
+    if case["kind"] == "stream" and obs.get("subscribe_raised"):
+        out.append(("subscribe() raised for a valid subscription instead of returning the response stream: %s"
+                    % obs["subscribe_raised"], None))
     if case["kind"] == "stream" and obs.get("observed_late") != obs.get("observed"):
         out.append(("a result already emitted changed while later events were processed "
                     "(its error list is shared with the executor)", None))
@@ -406,7 +549,7 @@ def shrink(case, is_bad):
 
 
 def extra_evidence(cases, obss):
-    lens, srcs, variants, refusals = {}, {}, {}, {}
+    lens, srcs, variants, refusals, traits_seen = {}, {}, {}, {}, {}
     with_err = 0
     for c, o in zip(cases, obss):
         if c["kind"] == "refusal":
@@ -415,9 +558,13 @@ def extra_evidence(cases, obss):
         n = len(c["variants"])
         lens[n] = lens.get(n, 0) + 1
         srcs[c["source"] + "/" + c["flavour"]] = srcs.get(c["source"] + "/" + c["flavour"], 0) + 1
+        if "traits" in c:
+            tk = "+".join(c["traits"] or ["plain"]) + "/" + c["fill"]
+            traits_seen[tk] = traits_seen.get(tk, 0) + 1
         for v in c["variants"]:
             variants[v] = variants.get(v, 0) + 1
         with_err += sum(1 for r in o.get("observed", []) if "errors" in r)
     return {"distribution": {"stream_lengths": lens, "source/field-resolver kinds": srcs,
                              "event_variants": variants, "refusal_classes_seen": refusals,
+                             "source_stream_classes": traits_seen,
                              "results_with_errors": with_err}}
